@@ -246,9 +246,32 @@ def worker(job, shard, nshards):
         p.reverse()
         return sid, p
 
+    # the BFS tree reaches each heap along ONE path, but different derivations give equal heaps (t.cols[:], t.rows[0:n], t._copy() all yield a
+    # table equal to t): what the derived table shares with its source differs.  Every edge is therefore replayed once per KIND of last step
+    # that leads to its source state (the BFS one first), up to `alts` alternatives.
+    inedges = collections.defaultdict(list)
+    for i_, (s_, l_, d_) in enumerate(edges):
+        if s_ != d_ and l_.get("exc", "none") == "none":
+            inedges[d_].append(i_)
+    alts = job.get("alts", 4)
+    work = []
     for ei in range(shard, len(edges), nshards):
-        src, lab, dst = edges[ei]
+        src = edges[ei][0]
         root, path = path_to(src)
+        work.append((ei, root, path))
+        if path:
+            seen_kinds = {edges[path[-1]][1]["a"]}
+            n_ = 0
+            for pi_ in inedges.get(src, ()):
+                k_ = edges[pi_][1]["a"]
+                if k_ in seen_kinds or n_ >= alts:
+                    continue
+                seen_kinds.add(k_)
+                n_ += 1
+                r2, p2 = path_to(edges[pi_][0])
+                work.append((ei, r2, p2 + [pi_]))
+    for ei, root, path in work:
+        src, lab, dst = edges[ei]
         variant = VARIANTS[ei % len(VARIANTS)]
         tabs = [mk_table(s, variant) for s in states[root]]
         expr_queries(tabs)
